@@ -350,40 +350,7 @@ func treeRules(ctx *Ctx, r *Result) {
 			r.check(good, "R1.5", "Tree.Insert exit {"+radixShort(pa)+"}", "", detail, 1)
 		}
 	}
-	// hostOnly: kind==Subdomains ⇒ Value[2:]
-	if fn := p.Func(pkgOrigins, "(*HostPattern).hostOnly"); fn != nil {
-		subs, _ := p.ConstInt(pkgOrigins, "PatternKindSubdomains")
-		x := p.NewExec(nil)
-		paths := x.Summarize(fn)
-		bad := ""
-		for _, pa := range paths {
-			if len(pa.Rets) != 1 {
-				continue
-			}
-			switch pa.Val(fmt.Sprintf("bin:==(param:hp.Kind, %d)", subs)) {
-			case 1:
-				if pa.Rets[0].Key() != "slice(param:hp.Value, 2, _, _)" {
-					bad = "a `*.` pattern's host is " + pa.Rets[0].Key() + ", expected the value minus exactly the two bytes `*.`"
-				}
-			case -1:
-				if pa.Rets[0].Key() != "param:hp.Value" {
-					bad = "a wildcard-free host is altered: " + pa.Rets[0].Key()
-				}
-			default:
-				bad = "hostOnly does not test the pattern kind"
-			}
-		}
-		// and the kind is only set where the `*.` prefix was seen
-		if pk := p.Func(pkgOrigins, "peekKind"); pk != nil {
-			x2 := p.NewExec(nil)
-			for _, pa := range x2.Summarize(pk) {
-				if len(pa.Rets) == 1 && pa.Rets[0].IsConst(fmt.Sprint(subs)) && !pa.Has(`call:strings.HasPrefix(param:str, "*.")`, true) {
-					bad = "the subdomains kind is assigned without having seen the `*.` prefix"
-				}
-			}
-		}
-		r.check(bad == "", "R1.6", "hostOnly: `*.` ⇒ two bytes dropped, kind set only under HasPrefix(`*.`)", p.Pos(fn.Pos()), bad, len(paths))
-	}
+	kindPrefixRule(ctx, r, "R1.6")
 
 	// ---- R1.7 -----------------------------------------------------------
 	if fn := p.Func(pkgOrigins, "(*Tree).Contains"); fn == nil {
@@ -464,6 +431,47 @@ func treeRules(ctx *Ctx, r *Result) {
 			}
 		}
 	}
+}
+
+// kindPrefixRule: hostOnly drops exactly the two bytes `*.` and only for the
+// subdomains kind, which is only assigned where that prefix was seen.
+func kindPrefixRule(ctx *Ctx, r *Result, rule string) {
+	p := ctx.P
+	// hostOnly: kind==Subdomains ⇒ Value[2:]
+	if fn := p.Func(pkgOrigins, "(*HostPattern).hostOnly"); fn != nil {
+		subs, _ := p.ConstInt(pkgOrigins, "PatternKindSubdomains")
+		x := p.NewExec(nil)
+		paths := x.Summarize(fn)
+		bad := ""
+		for _, pa := range paths {
+			if len(pa.Rets) != 1 {
+				continue
+			}
+			switch pa.Val(fmt.Sprintf("bin:==(param:hp.Kind, %d)", subs)) {
+			case 1:
+				if pa.Rets[0].Key() != "slice(param:hp.Value, 2, _, _)" {
+					bad = "a `*.` pattern's host is " + pa.Rets[0].Key() + ", expected the value minus exactly the two bytes `*.`"
+				}
+			case -1:
+				if pa.Rets[0].Key() != "param:hp.Value" {
+					bad = "a wildcard-free host is altered: " + pa.Rets[0].Key()
+				}
+			default:
+				bad = "hostOnly does not test the pattern kind"
+			}
+		}
+		// and the kind is only set where the `*.` prefix was seen
+		if pk := p.Func(pkgOrigins, "peekKind"); pk != nil {
+			x2 := p.NewExec(nil)
+			for _, pa := range x2.Summarize(pk) {
+				if len(pa.Rets) == 1 && pa.Rets[0].IsConst(fmt.Sprint(subs)) && !pa.Has(`call:strings.HasPrefix(param:str, "*.")`, true) {
+					bad = "the subdomains kind is assigned without having seen the `*.` prefix"
+				}
+			}
+		}
+		r.check(bad == "", rule, "hostOnly: `*.` ⇒ two bytes dropped, kind set only under HasPrefix(`*.`)", p.Pos(fn.Pos()), bad, len(paths))
+	}
+
 }
 
 func sameSet(a, b map[string]bool) bool {
